@@ -214,3 +214,69 @@ def c02(cases, res):
     res.notes["oracle_commits"] = commits
     res.notes["oracle_auto_commits"] = autos
     return out
+
+
+# ---------------------------------------------------------------- C18
+
+def c18(cases, res):
+    out = []
+    keys = 0
+    images = {}
+    for case in cases:
+        for i, prev, s in steps_with_prev(case):
+            if prev is None or not is_key(s) or state_of(prev) != "Entering":
+                continue
+            po = opts_of(prev)
+            code = key_code(s)
+            uni = int(s.op[3])
+            shift, ctrl, caps, num = key_mods(s)
+            psyms, syms = lst(prev.snap.get("syms", "")), lst(s.snap.get("syms", ""))
+            pcur, cur = int(prev.snap["cursor"]), int(s.snap["cursor"])
+            o = opts_of(s)
+            if s.res == "Commit" and psyms:
+                # auto-commit after the key (only when the limit was lowered below the buffer
+                # length): the committed part is C02's business, the mode change still happened
+                if code == 0 and caps and o[8] != 1 - po[8]:
+                    out.append(fail("capslock-toggle", case, i, "%s -> %s" % (po, o)))
+                continue
+            # Caps Lock
+            if code == 0 and caps:
+                if o[8] != 1 - po[8] or o[9] != po[9] or syms != psyms or prev.snap.get("sels") != s.snap.get("sels"):
+                    out.append(fail("capslock-toggle", case, i, "%s -> %s" % (po, o)))
+                continue
+            if code == KC["Space"] and shift and not ctrl and not caps and po[13]:
+                if o[9] != 1 - po[9] or o[8] != po[8] or syms != psyms:
+                    out.append(fail("shift-space-toggle", case, i, "%s -> %s" % (po, o)))
+                continue
+            if not po[8] or ctrl or caps or num or not (1 <= code <= 48) or not (32 <= uni <= 126):
+                continue
+            if code == KC["Space"] and shift and po[13]:
+                continue
+            keys += 1
+            ch = uni
+            if po[9]:
+                # full-width: one non-ASCII character, injective
+                got = None
+                if not psyms and s.res == "Commit":
+                    c = [int(x) for x in s.snap.get("commit", "").split(".") if x]
+                    got = c[0] if len(c) == 1 else None
+                elif psyms and len(syms) == len(psyms) + 1 and syms[pcur].startswith("C"):
+                    got = int(syms[pcur][1:])
+                if got is None or got <= 127:
+                    out.append(fail("fullwidth-not-one-char", case, i, "char %d -> %s" % (uni, s.raw_s[:200])))
+                    continue
+                if images.setdefault(got, uni) != uni:
+                    out.append(fail("fullwidth-not-injective", case, i, "%d and %d -> %d" % (images[got], uni, got)))
+                ch = got
+            if not psyms:
+                if s.res != "Commit" or s.snap.get("commit") != str(ch) or syms:
+                    out.append(fail("english-empty-not-committed", case, i, "char %d: %s commit=%s" % (ch, s.res, s.snap.get("commit"))))
+            elif s.res == "Commit":
+                continue            # auto-commit after the insertion (limit lowered): C02's business
+            else:
+                exp = psyms[:pcur] + ["C%d" % ch] + psyms[pcur:]
+                if syms != exp or cur != pcur + 1 or s.res != "Absorb":
+                    out.append(fail("english-not-inserted-at-cursor", case, i, "%s@%d + %d -> %s@%d" % (psyms, pcur, ch, syms, cur)))
+    res.notes["oracle_english_keys"] = keys
+    res.notes["oracle_fullwidth_images"] = len(images)
+    return out
